@@ -101,19 +101,26 @@ func callGo(ch *lab.Child, client, url, rpc, reqType string, req []byte, opts ma
 
 // callTS performs one call through a generated TS client on node.
 func callTS(node *lab.Child, file, cls, url, method string, req any, extra map[string]any) (lab.Event, error) {
+	ret, _, err := callTSEv(node, file, cls, url, method, req, extra)
+	return ret, err
+}
+
+// callTSEv also returns the events emitted by the same node process during the call
+// (handler/wire events of a TS server hosted in that process).
+func callTSEv(node *lab.Child, file, cls, url, method string, req any, extra map[string]any) (lab.Event, []lab.Event, error) {
 	id := newID("n")
 	cmd := map[string]any{"op": "call", "id": id, "file": file, "cls": cls, "url": url, "method": method, "req": req}
 	for k, v := range extra {
 		cmd[k] = v
 	}
-	_, ret, err := node.Do(cmd, 60*time.Second, "client_return")
+	evs, ret, err := node.Do(cmd, 60*time.Second, "client_return")
 	if err != nil {
-		return nil, err
+		return nil, evs, err
 	}
 	if ret.Str("ev") != "client_return" {
-		return ret, fmt.Errorf("ts call failed: %v", ret["err"])
+		return ret, evs, fmt.Errorf("ts call failed: %v", ret["err"])
 	}
-	return ret, nil
+	return ret, evs, nil
 }
 
 // rawResp is a driver-side HTTP response.
